@@ -20,10 +20,11 @@ type c05p struct {
 	chunks  []string // explicit chunks (instead of k x perRead letters)
 	expect  string   // expected key string for explicit chunks
 	modes   bool     // mouse, paste and focus reporting enabled (mixed event kinds in the stream)
+	errLast bool     // the read that returns the last chunk reports an error along with the data
 }
 
 func (p c05p) String() string {
-	return fmt.Sprintf("%s keys=%dx%d posters=%dx%d resize=%v prefill=%d", p.kind, p.k, p.perRead, p.posters, p.posts, p.resize, p.prefill)
+	return fmt.Sprintf("%s keys=%dx%d posters=%dx%d resize=%v prefill=%d err-with-last-read=%v", p.kind, p.k, p.perRead, p.posters, p.posts, p.resize, p.prefill, p.errLast)
 }
 
 var c05table []c05p
@@ -115,6 +116,10 @@ func readsScenarios(prop string) []scenario {
 		add([]string{"abcdefghijkl", "\xc3\xa9", "\xe4\xb8\x96", "z", "\xc3\xa9\xe4\xb8\x96"}, exp)
 		add([]string{"abcdefghijkl", "\xc3", "\xa9", "\xe4\xb8", "\x96z", "\xc3\xa9\xe4", "\xb8\x96"}, exp)
 		add([]string{"abcdefghijk", "l\xc3", "\xa9\xe4", "\xb8", "\x96", "z\xc3", "\xa9\xe4\xb8\x96"}, exp)
+		// the terminal goes away right after its last bytes: the read that returns them also
+		// reports the error (io.Reader permits both at once); the text still is text the terminal sent
+		c05table = append(c05table, c05p{kind: "slow", perRead: 1, chunks: []string{"abc", "\xc3\xa9z"}, expect: "abc\u00e9z", errLast: true})
+		params = append(params, fmt.Sprint(len(c05table)-1))
 	}
 	return []scenario{{name: "reads", params: params, bound: 2, caseCost: 1, prog: c05prog, check: c05check}}
 }
@@ -163,6 +168,9 @@ func c05prog(ps string, res *result) func() {
 		}
 		for s.HasPendingEvent() {
 			s.PollEvent()
+		}
+		if p.errLast {
+			r.tty.errWith = len(p.chunks)
 		}
 		for i := 0; i < p.prefill; i++ {
 			_ = s.PostEvent(tcell.NewEventInterrupt(-1 - i))
@@ -254,6 +262,10 @@ func c05prog(ps string, res *result) func() {
 				verifrt.Note(uint64(kr))
 			case *tcell.EventResize:
 				res.events = append(res.events, "resize")
+			case *tcell.EventError:
+				if !p.errLast {
+					o.got = append(o.got, delivered{what: fmt.Sprintf("%T", ev)})
+				}
 			default:
 				o.got = append(o.got, delivered{what: fmt.Sprintf("%T", ev)})
 			}
